@@ -208,6 +208,13 @@ def positions() -> Res:
     return False, "dependency records are equal for every written order of every script of the family", None
 
 
+def promotion() -> Res:
+    """Unknown-variable promotion of visit_Start: position independence first, then the producer->consumer edges of
+    scripts whose clauses read scalars defined by other statements."""
+    r = positions()
+    return r if r[0] else vertex_edges()
+
+
 def sort_ast() -> Res:
     """sort_ast keeps every child exactly once: definitions first, sorted assignments after."""
     import C25
